@@ -41,6 +41,10 @@ theorem registered_once : strictSorted (msort (registrations.map (·.typeKey))) 
 theorem all_packages_linked : lintDirKeys.all (fun d => blankImportKeys.contains d) = true
     ∧ registrationPkgKeys.all (fun p => blankImportKeys.contains p) = true := by decide +kernel
 
+/-- no file below v3/lints that the default build leaves out (a name ending in `_test.go`, a `_GOOS`/`_GOARCH`
+    suffix, a build constraint) holds a registration call: every lint in the tree is in every default build -/
+theorem no_registration_outside_default_build : excludedRegistrations.isEmpty = true := by decide
+
 /-- **Lookups agree** (run-time observation of the real registry): each listed lint is what
     `ByName` returns for its name and occurs exactly once in `BySource` of its source; per kind the
     listing, the name list and the source list describe the same set; the registry-level source
